@@ -3,28 +3,63 @@ From Coq Require Import List NArith ZArith Arith Bool.
 Import ListNotations.
 From Chiri Require Import Base.Bytes Base.Res Model.Tokenizer Model.TagParser Model.Finders Model.Markers
      Model.Format Model.Clean Spec.Scan Spec.Rename Spec.Simulation
-     Proofs.TokenizerProofs Proofs.RenameProofs Proofs.C06Proofs Proofs.SimFlat Proofs.SimStrings.
+     Proofs.TokenizerProofs Proofs.RenameProofs Proofs.C06Proofs Proofs.SimFlat Proofs.SimStrings
+     Proofs.SimFront Proofs.SimClean.
 
-(** The full statement (kept visible; NOT proved in full): rewriting source and configuration
-    consistently to another spelling yields the correspondingly rewritten output. *)
-Definition C18_full_statement : Prop :=
-  forall cfg ds de ds' de' doc doc',
-    good_delims ds de -> good_delims ds' de' -> good_doc ds de doc -> good_doc ds' de' doc ->
+(** The full statement for delimiters (kept visible): one abstract document (texts and tag bodies,
+    Spec/Rename.v) rendered with two spellings of the delimiters cleans to the two renderings of ONE
+    sequence of symbols (bytes, start-delimiter, end-delimiter: Proofs/SimFlat.v) - "rewriting the
+    source and the configuration consistently to another pair of delimiters yields exactly the
+    correspondingly rewritten output". *)
+Definition C18_delimiters_full_statement : Prop :=
+  forall cfg dsA deA dsB deB doc,
+    good_delims dsA deA -> good_delims dsB deB -> good_doc dsA deA doc -> good_doc dsB deB doc ->
     bodies_ok doc ->
-    dedent_ok de doc -> dedent_ok de' doc ->          (* excludes known finding KF2, see below *)
-    clean cfg ds de (render ds de doc) = Ok (render ds de doc') ->
-    clean cfg ds' de' (render ds' de' doc) = Ok (render ds' de' doc').
-(** What is proved (the `_partial` theorems below): for documents in which the delimiter bytes occur
-    nowhere else, the token sequence (kinds, order, spans = the items' spans) and every parsed tag
-    are the same function of the abstract document whatever the spelling, and the decisions depend
-    on tag names only through equality with the configured names.  So the tree, readiness and marker
-    structure are spelling-independent.  For the formatting layer the string-level half is proved
-    (the C18_sim_* theorems below: every finder, the four seam formatters with their hull, and the
-    block formatter return corresponding positions when run on the two renderings of one document at
-    corresponding positions - Spec/Simulation.v defines the correspondence [cpos]).  What is missing
-    for the full statement is the pipeline-level composition (markers, the removed text as a
-    rendering of a residual document, the merge of ranges); it is validated differentially
-    (metamorphic pairs over 18 delimiter spellings x 4 tag-name pairs) in the check of this property. *)
+    dedent_ok deA doc -> dedent_ok deB doc ->          (* excludes known finding KF2, see below *)
+    exists l', clean cfg dsA deA (render dsA deA doc) = Ok (rs dsA deA l') /\
+               clean cfg dsB deB (render dsB deB doc) = Ok (rs dsB deB l').
+
+(** PROVED for cleaning, with [de_nb] (the end delimiter does not begin with a blank) in place of the
+    weaker [dedent_ok] (... or no line of blanks runs into an end delimiter): the whole pipeline -
+    tokenizer, tag parser, tree, collection of ranges, merge, removal, the four seam formatters, the
+    block dedenter, merge of the whitespace ranges, deletion - run on a rendering is the rendering of
+    the abstract pipeline [a_clean], which does not mention the delimiters (Proofs/SimFront.v,
+    MonoMap.v, SimClean.v). *)
+Theorem C18_clean_is_rendering_of_abstract_clean :
+  forall cfg ds de doc,
+    good_delims ds de -> good_doc ds de doc -> bodies_ok doc -> de_nb de ->
+    exists l', a_clean cfg doc = Ok l' /\ clean cfg ds de (render ds de doc) = Ok (rs ds de l').
+Proof. exact clean_rendered_ok. Qed.
+Print Assumptions C18_clean_is_rendering_of_abstract_clean.
+
+Theorem C18_clean_two_spellings :
+  forall cfg dsA deA dsB deB doc,
+    good_delims dsA deA -> good_delims dsB deB -> good_doc dsA deA doc -> good_doc dsB deB doc ->
+    bodies_ok doc -> de_nb deA -> de_nb deB ->
+    exists l', clean cfg dsA deA (render dsA deA doc) = Ok (rs dsA deA l') /\
+               clean cfg dsB deB (render dsB deB doc) = Ok (rs dsB deB l').
+Proof. exact clean_two_spellings. Qed.
+Print Assumptions C18_clean_two_spellings.
+
+(** Non-vacuity of the two theorems: an unwrap-block document (the run goes through the unwrap
+    builder and the block dedenter, a tag survives) under "<!" ">" and "{{" "}}". *)
+Example C18_two_spellings_example :
+  a_clean ex_cfg ex_doc = Ok ex_out /\
+  0 < length ex_out /\ length ex_out < length (flat ex_doc) /\
+  clean ex_cfg [60;33]%N [62]%N (render [60;33]%N [62]%N ex_doc) = Ok (rs [60;33]%N [62]%N ex_out) /\
+  clean ex_cfg [123;123]%N [125;125]%N (render [123;123]%N [125;125]%N ex_doc) = Ok (rs [123;123]%N [125;125]%N ex_out).
+Proof. exact a_clean_example. Qed.
+
+(** What is NOT proved: (1) the case of an end delimiter that begins with a blank when no line of
+    blanks runs into it ([dedent_ok] rather than [de_nb]); (2) the same statement for the listing
+    functions (list / list_all share the front end, the collection and the merge, which are covered
+    by the simulation, but their line-range rendering is not); (3) respelling of the TAG NAMES:
+    rewriting the configured tag names in the configuration and in every tag consistently (to names
+    that do not otherwise occur) yields the correspondingly rewritten output.  For (3) the proved
+    part is that a parsed tag depends on its body only and that names enter the decision only
+    through equality with the configured names (the `_partial` theorems below).  (1)-(3) are
+    validated differentially (metamorphic pairs over 18 delimiter spellings x 4 tag-name pairs, clean
+    and list) in the check of this property.  The older stage-wise theorems are kept below. *)
 
 Theorem C18_tokens_are_the_items_partial :
   forall ds de doc ts,
